@@ -334,6 +334,22 @@ def entries():
         f = o + ".csv"
         return Call(lambda: _m("static.sq").sq(W.sk[2], qvector=W.qv3f, outputfile=f).getresults(), files=[(f, "csv", ident, 6)])
 
+    # the default wave-vector set, the same system and range with each `onlypositive` option: results of one option must not
+    # depend on which of the others was computed before it (state shared between calls / objects)
+    for op in (False, True, "x"):
+        def mk(op=op):
+            def b(W, o):
+                f = o + ".csv"
+                return Call(lambda: _m("static.sq").sq(W.sk[2], qrange=4.5, onlypositive=op, outputfile=f).getresults(), files=[(f, "csv", ident, 6)])
+            return b
+        reg("static.sq.sq.getresults")(mk())
+        def mk2(op=op):
+            def b(W, o):
+                f = o + ".csv"
+                return Call(lambda: _m("static.sq").sq(W.sk2[2], qrange=5.0, onlypositive=op, outputfile=f).getresults(), files=[(f, "csv", ident, 6)])
+            return b
+        reg("static.sq.sq.getresults")(mk2())
+
     # ---- BOO 3D
     def boo3(W, weights=False):
         return W.obj("boo3w" if weights else "boo3", lambda: _m("static.boo").boo_3d(W.s3, 4, W.nb3, W.w3 if weights else None, W.ppp3, 10))
@@ -383,6 +399,27 @@ def entries():
     def _(W, o):
         f = o + ".csv"
         return Call(lambda: boo3(W).time_corr(True, 0.002, f), files=[(f, "csv", ident, 8)])
+
+    # the other value of every boolean option (a branch that keeps or rewrites state may sit behind either one)
+    @reg("static.boo.boo_3d.time_corr")
+    def _(W, o):
+        f = o + ".csv"
+        return Call(lambda: boo3(W).time_corr(False, 0.002, f), files=[(f, "csv", ident, 8)])
+
+    @reg("static.boo.boo_3d.spatial_corr")
+    def _(W, o):
+        f = o + ".csv"
+        return Call(lambda: boo3(W).spatial_corr(True, 0.1, f), files=[(f, "csv", ident, 8)])
+
+    @reg("static.boo.boo_3d.sij_ql_Ql")
+    def _(W, o):
+        f, g = o + ".sij.dat", o + ".qlql.csv"
+        return Call(lambda: boo3(W).sij_ql_Ql(True, 0.6, g, f), files=[(f, "txt1", ident, 6)], aux=[g])
+
+    @reg("static.boo.boo_3d.w_W_cap")
+    def _(W, o):
+        f, g = o + ".w.npy", o + ".wcap.npy"
+        return Call(lambda: boo3(W).w_W_cap(True, f, g), files=[(f, "npy", lambda r: r[0], None), (g, "npy", lambda r: r[1], None)])
 
     # ---- BOO 2D
     def boo2(W, weights=False):
@@ -537,6 +574,16 @@ def entries():
     def _(W, o):
         f = o + ".csv"
         return Call(lambda: s2obj(W).spatial_corr(False, f), files=[(f, "csv", ident, 8)])
+
+    @reg("static.pairentropy.S2.spatial_corr")
+    def _(W, o):       # the other value of the option
+        f = o + ".csv"
+        return Call(lambda: s2obj(W).spatial_corr(True, f), files=[(f, "csv", ident, 8)])
+
+    @reg("static.pairentropy.S2.particle_s2")
+    def _(W, o):       # the other value of the option
+        f = o + ".npy"
+        return Call(lambda: s2obj(W).particle_s2(True, f), files=[(f, "npy", ident, None)])
 
     @reg("static.pairentropy.S2.time_corr")
     def _(W, o):
